@@ -322,3 +322,38 @@ def cmp_polarity(N, test, env, terms, op, const=0):
         if op in ('==', '!=') and o == op and lin.scale(-1).is_(terms, const):
             return pol
     return None
+
+
+def subst(e, env, depth=0, keep=()):
+    """copy of expression `e` in which every local name with a single definition and every parameter of an inlined frame is replaced,
+    recursively, by its defining / argument expression (env: FrameEnv or dict).  Names in `keep` are left alone.  The result is a
+    canonical spelling of "where the value comes from" in terms of the entry point's own parameters, loop variables and self."""
+    import copy as _copy
+    if depth > 8:
+        return e
+
+    def res(name):
+        if name in keep or name == 'self':
+            return None
+        if isinstance(env, FrameEnv):
+            return env.resolve(name)
+        if env and name in env:
+            return env[name], {k: v for k, v in env.items() if k != name}
+        return None
+
+    class T(ast.NodeTransformer):
+        def visit_Name(self, n):
+            if isinstance(n.ctx, ast.Load):
+                r = res(n.id)
+                if r is not None:
+                    return subst(r[0], r[1], depth + 1, keep)
+            return n
+
+        def visit_Lambda(self, n):
+            return n
+    return T().visit(_copy.deepcopy(e))
+
+
+def ctext(e, env, keep=()):
+    """canonical text of an expression (see subst)"""
+    return ast.unparse(subst(e, env, keep=keep)).replace(' ', '')
